@@ -1,10 +1,24 @@
-"""C16 table: `pyxel.util.get_dtype` evaluated on every resolution 0..70 (complete finite table:
-width in bits of the unsigned type, or none where it raises ValueError)."""
-import sys
-
-from extract import REPO, lnat, llist
+"""C16 table: `pyxel.util.get_dtype` EVALUATED on every resolution 0..70 (complete finite table: width in bits of
+the unsigned type, or none where it raises ValueError).  No source pattern matching: the public function is called
+in its own interpreter with the tree under translation importable as pyxel (`extract.run_in_repo`)."""
+from extract import llist, lnat, run_in_repo
 
 FALLBACK = "def dtypeTable : List (Nat × Option Nat) := []"
+
+PROBE = r"""
+import json
+import numpy as np
+from pyxel.util import get_dtype
+rows = []
+for b in range(0, 71):
+    try:
+        dt = np.dtype(get_dtype(b))
+        w = dt.itemsize * 8 if dt.kind == "u" else 0   # a signed / float type is "width 0": never wide enough
+    except ValueError:
+        w = None
+    rows.append([b, w])
+print(json.dumps(rows))
+"""
 
 
 def _opt(w):
@@ -12,18 +26,7 @@ def _opt(w):
 
 
 def gen() -> str:
-    if str(REPO) not in sys.path:
-        sys.path.insert(0, str(REPO))
-    import numpy as np
-
-    from pyxel.util import get_dtype
-
-    rows = []
-    for b in range(0, 71):
-        try:
-            dt = np.dtype(get_dtype(b))
-            w = dt.itemsize * 8 if dt.kind == "u" else 0  # a signed / float type is "width 0": never wide enough
-        except ValueError:
-            w = None
-        rows.append((b, w))
+    rows = run_in_repo(PROBE)
+    if not rows:
+        return "-- get_dtype probe failed\n" + FALLBACK
     return "def dtypeTable : List (Nat × Option Nat) := " + llist(rows, lambda r: f"({lnat(r[0])}, {_opt(r[1])})")
